@@ -9,10 +9,10 @@ pub fn prop() -> Prop {
     Prop {
         id: "C14",
         level: "model_checking",
-        rule: "unbounded input = every prefix of <=2 (thorough <=3) values over a 5-value alphabet (qualifying object, scalar, empty split, duplicate rows, non-qualifying object) followed by an endless counter stream of qualifying distinct objects (two kinds: every split item qualifies / every array ends in an item that --filter drops and --unique has seen), served byte by byte with every byte pulled counted; T in 0..5, S in 0..3 x every subset of {--set, --split-by, --filter, --select, --unique, --only-objects-and-arrays}; horizon 64 KiB; FIFO (file path) variant for a subset; non-trivial = T>=1 and the T-th row is not produced by the last value of the prefix; distinct by construction",
+        rule: "unbounded input = every prefix of <=2 (thorough <=4) values over a 5-value alphabet (qualifying object, scalar, empty split, duplicate rows, non-qualifying object) followed by an endless counter stream of qualifying distinct objects (two kinds: every split item qualifies / every array ends in an item that --filter drops and --unique has seen), served byte by byte with every byte pulled counted; T in 0..5, S in 0..3 (and (S,T) around 255/256/1000 for 6 option sets) x every subset of {--set, --split-by, --filter, --select, --unique, --only-objects-and-arrays}; horizon 64 KiB; FIFO (file path) variant for a subset; non-trivial = T>=1 and the T-th row is not produced by the last value of the prefix; distinct by construction",
         explanation: "a step-wise reference pipeline says which input value produces row S+T and where that value ends; jawk must return Ok with exactly rows S..S+T, must not reach the horizon, and must not pull more than 16 bytes past that value (stdin) / one pipe + BufReader capacity (file)",
         assumptions: COMMON_ASSUMPTIONS.to_vec(),
-        guards: vec!["tail-arrays-end-in-a-dropped-item", "stopped-inside-endless-tail", "stopped-inside-prefix", "take-zero", "split-stops-mid-array", "unique-drops-before-limit", "fifo"],
+        guards: vec!["hundreds-of-rows-before-the-stop", "tail-arrays-end-in-a-dropped-item", "stopped-inside-endless-tail", "stopped-inside-prefix", "take-zero", "split-stops-mid-array", "unique-drops-before-limit", "fifo"],
         budget_s: (100, 1200),
         single_worker: false,
         run,
@@ -171,7 +171,7 @@ fn run(ctx: &mut Ctx) {
         .into_iter()
         .map(|s| (s.v, s.end))
         .collect();
-    let maxp = ctx.tier.pick(2, 3);
+    let maxp = ctx.tier.pick(2, 4);
     let mut prefixes: Vec<Vec<usize>> = Vec::new();
     crate::explore::seqs_upto(alpha.len(), maxp, |i| prefixes.push(i.to_vec()));
     let (tmax, smax) = (5usize, 3usize);
@@ -282,6 +282,34 @@ fn run(ctx: &mut Ctx) {
             }
         }
     }
+    }
+    // size thresholds: counters that only wrap late (S, T around 255/256 and 1000)
+    for mask in [0u32, 2, 4 | 8, 16, 2 | 4 | 16, 63] {
+        for (s, t) in [(0usize, 255usize), (0, 256), (255, 1), (256, 2), (3, 1000), (1000, 3)] {
+            if !ctx.mine() {
+                continue;
+            }
+            let o = Opts::from_mask(mask);
+            let pbytes: Vec<u8> = Vec::new();
+            let stream: Vec<(V, usize)> = tail_vals.iter().take_while(|(_, e)| *e <= HORIZON).cloned().collect();
+            let exp = expectation(&o, s, t, &stream, 0);
+            let case = Case { args: o.args(s, t), input: Input::Stdin(pbytes.clone()), rplan: ReadPlan { endless_tail: Some(tail.clone()), horizon: HORIZON, ..ReadPlan::default() }, wplan: WritePlan::default() };
+            let got = ctx.run(&case);
+            ctx.case_done();
+            ctx.trace_validated();
+            ctx.nontrivial();
+            ctx.guard("hundreds-of-rows-before-the-stop");
+            let sig = format!("options mask {mask} S={s} T={t}");
+            let Some(stop) = exp.stop_after else { continue };
+            let rows = json::parse_rows(&got.stdout, b"\n").unwrap_or_default();
+            if got.horizon_hit || !got.res.is_ok() {
+                ctx.violation("never-stops-reading", &sig, &[case.clone()], format!("stop after byte {stop}"), format!("horizon_hit={} {}", got.horizon_hit, got.res.short()));
+            } else if rows != exp.rows {
+                ctx.violation("rows", &sig, &[case.clone()], format!("{} rows", exp.rows.len()), format!("{} rows", rows.len()));
+            } else if got.bytes_pulled > stop + 16 {
+                ctx.violation("reads-too-far", &sig, &[case.clone()], format!("<= {} bytes", stop + 16), format!("{}", got.bytes_pulled));
+            }
+        }
     }
     ctx.level_done("stdin:all-prefixes-x-option-subsets-x-S-x-T");
 
